@@ -289,8 +289,24 @@ def main():
             acc.sample({"definition": short(defn, 400)})
     # the generated index lists exactly the generated modules
     acc.add("evaluations")
+    keys = {}
+    for fname, defn in spec["definitions"]:
+        if fname not in rejected and defn.get("type") in ("request", "response"):
+            keys.setdefault(defn["apiKey"], set()).add(defspec.api_package(defn))
     try:
         from kio.schema import index as sindex
+
+        got_keys = dict(sindex.api_key_map)
+        for k, pk in sorted(keys.items()):
+            if len(pk) != 1:
+                continue  # the grammar reuses keys 7 and 18 for several APIs: which one wins is not judged
+            if got_keys.get(k) != next(iter(pk)):
+                acc.report(violation("C16", "index", "C16/index/api-key-map-misses-or-misnames-a-generated-api", "index", {"api_key": k, "batch": spec.get("offset", 0)},
+                                     f"{k} -> {next(iter(pk))}", f"{k} -> {got_keys.get(k)!r}", (0, k)))
+                break
+        extra = sorted(set(got_keys) - set(keys))
+        if extra:
+            acc.report(violation("C16", "index", "C16/index/api-key-map-lists-unknown-keys", "index", {"batch": spec.get("offset", 0)}, "only generated keys", str(extra[:5]), (0,)))
 
         listed = {(n, v, t.name) for n, vm in sindex.schema_name_map.items() for v, tm in vm.items() for t in tm}
         if listed != expected_modules:
